@@ -688,7 +688,7 @@ class C03(Prop):
         for d in cands:
           if d[0] == src[0]:
             cls = c04.PROP.classify(d, src, a[3])
-            if '<-' in cls and (c04.dict_default_gap(d, src) or c04.dict_default_gap(src, d)):
+            if ('<-' in cls or cls == 'missing-into-frozen') and (c04.dict_default_gap(d, src) or c04.dict_default_gap(src, d)):
               cls = 'dict-field-default-ignored'   # compatibility does not look at field defaults (C04 F42)
             if '<-' in cls and member_ok(tv.build(c04.strip_rx(fields[k])), canon(a[3]), True):
               cls = 'str-regex-ignored'      # is_compatible documents that it ignores Str regexes
